@@ -14,34 +14,56 @@ steps with arbitrary candidates, at arbitrary points.
 -/
 import Pithos.Lemmas.Parts
 import Pithos.Lemmas.PartsGrace
+import Pithos.Gen.PartsSql
 
 namespace Pithos.C08
 open Pithos.Parts
+
+-- ---------------------------------------------------------------- T1: the regenerated SQL facts
+
+/-- **regenerated_sql_facts_sound** (T1).  The statements of the current
+`partregistry/sqlite.go` (regenerated into `Pithos.Gen.partsSql` on every run) guard the
+collector's repairs by the *exact* observed version.  Every theorem below takes this as its
+hypothesis `cfg.sql.Sound`; `…_code` instantiates it with the regenerated facts. -/
+theorem regenerated_sql_facts_sound : Pithos.Gen.partsSql.Sound := by decide
+
+/-- **regenerated_register_is_insert_or_fail** (T1).  `RegisterParts` is a plain INSERT: handing
+`savePartRows` an already registered part without a pre-acquired reference fails loudly. -/
+theorem regenerated_register_is_insert_or_fail : Pithos.Gen.partsSql.register = .fail := by decide
+
+/-- **regenerated_tryadd_guarded** (T1). -/
+theorem regenerated_tryadd_guarded : Pithos.Gen.partsSql.addGuardPositive = true := by decide
 
 /-- **refinv_preserved.** Every atomic step preserves `RefInv`: registry count = number of part
 rows (never 0), every part row's id present in its named store, dedup entries point to present
 registered parts, ids queued for deletion are unreferenced for good, version-CAS observations stay
 truthful. -/
-theorem refinv_preserved (cfg : Cfg) (s : St) (a : Act) (h : RefInv s) : RefInv (step cfg s a) :=
-  step_inv cfg h a
+theorem refinv_preserved (cfg : Cfg) (hq : cfg.sql.Sound) (s : St) (a : Act) (h : RefInv s) :
+    RefInv (step cfg s a) :=
+  step_inv cfg hq h a
 
 /-- **refinv_run.** … hence every sequence of atomic steps does — every interleaving of writers,
 copiers, deleters, transitions and collector steps, with the collector at arbitrary points and on
 arbitrary candidate ids. -/
-theorem refinv_run (cfg : Cfg) (acts : List Act) : RefInv (run cfg St.init acts) :=
-  run_inv cfg refinv_init acts
+theorem refinv_run (cfg : Cfg) (hq : cfg.sql.Sound) (acts : List Act) : RefInv (run cfg St.init acts) :=
+  run_inv cfg hq refinv_init acts
+
+/-- … in particular for the statements the code has now, whatever the store configuration. -/
+theorem refinv_run_code (grace : Nat) (names : List Store) (txFree : Store → Bool) (acts : List Act) :
+    RefInv (run ⟨grace, names, txFree, Pithos.Gen.partsSql⟩ St.init acts) :=
+  refinv_run _ regenerated_sql_facts_sound acts
 
 /-- **committed_objects_readable.** In every reachable state, every part row — of a completed
 object version or of a pending upload — has its part in the store the row names. -/
-theorem committed_objects_readable (cfg : Cfg) (acts : List Act) :
+theorem committed_objects_readable (cfg : Cfg) (hq : cfg.sql.Sound) (acts : List Act) :
     ∀ r ∈ (run cfg St.init acts).rows, (run cfg St.init acts).stores r.store r.pid ≠ none :=
-  (refinv_run cfg acts).rowsIn
+  (refinv_run cfg hq acts).rowsIn
 
 /-- … and this survives any further step (the form used "after every step" by the judge). -/
-theorem referenced_part_survives_step (cfg : Cfg) (acts : List Act) (a : Act) :
+theorem referenced_part_survives_step (cfg : Cfg) (hq : cfg.sql.Sound) (acts : List Act) (a : Act) :
     ∀ r ∈ (step cfg (run cfg St.init acts) a).rows,
       (step cfg (run cfg St.init acts) a).stores r.store r.pid ≠ none :=
-  (step_inv cfg (refinv_run cfg acts) a).rowsIn
+  (step_inv cfg hq (refinv_run cfg hq acts) a).rowsIn
 
 /-- Does `Condemn p` report "condemned" in state `s`? (the two successful exits of `Condemn`) -/
 def condemns (s : St) (p : PartId) : Bool :=
@@ -52,11 +74,11 @@ def condemns (s : St) (p : PartId) : Bool :=
 /-- **gc_condemn_safe.** A successful `Condemn p` — in any reachable state, for any id — means
 that no part row references `p` at that step, and afterwards still every part row's part is
 present (so the deletion that follows, in the transaction or after it, hits no referenced part). -/
-theorem gc_condemn_safe (cfg : Cfg) (acts : List Act) (st : Store) (p : PartId)
+theorem gc_condemn_safe (cfg : Cfg) (hq : cfg.sql.Sound) (acts : List Act) (st : Store) (p : PartId)
     (hc : condemns (run cfg St.init acts) p = true) :
     refs (run cfg St.init acts).rows p = 0 ∧
     RefInv (step cfg (run cfg St.init acts) (.gcCondemn st p)) := by
-  refine ⟨?_, step_inv cfg (refinv_run cfg acts) _⟩
+  refine ⟨?_, step_inv cfg hq (refinv_run cfg hq acts) _⟩
   unfold condemns at hc
   split at hc
   · simpa using hc
@@ -75,15 +97,15 @@ theorem remove_refs_zero_only_when_unreferenced (s : St) (pend : List Pend) (h :
 /-- **tryadd_guard_redundant.** Under the invariant a registry row never has `ref_count = 0`, so
 with SQLite's serialised write transactions the `ref_count > 0` guard of `TryAddReferences` never
 decides anything: a mutant dropping it is behaviourally equivalent on this stack. -/
-theorem tryadd_guard_redundant (cfg : Cfg) (acts : List Act) (p c v : Nat)
+theorem tryadd_guard_redundant (cfg : Cfg) (hq : cfg.sql.Sound) (acts : List Act) (p c v : Nat)
     (h : (run cfg St.init acts).reg p = some (c, v)) : 0 < c :=
-  ((refinv_run cfg acts).cnt p c v h).2
+  ((refinv_run cfg hq acts).cnt p c v h).2
 
 /-- **condemn_recheck_redundant.** Likewise the re-check of `parts` rows inside `Condemn`: a
 missing registry row already implies that no part row references the id. -/
-theorem condemn_recheck_redundant (cfg : Cfg) (acts : List Act) (p : PartId)
+theorem condemn_recheck_redundant (cfg : Cfg) (hq : cfg.sql.Sound) (acts : List Act) (p : PartId)
     (h : (run cfg St.init acts).reg p = none) : refs (run cfg St.init acts).rows p = 0 :=
-  (refinv_run cfg acts).regd p h
+  (refinv_run cfg hq acts).regd p h
 
 -- ---------------------------------------------------------------- what the protocol needs
 
@@ -96,18 +118,73 @@ def shareWithoutAcquire (t : St × List Pend) (p : PartId) (st : Store) : St × 
 part without taking the registry reference; delete k0 — the registry count reaches zero, the part
 is deleted, and k1's row points at a part that is gone. -/
 theorem acquire_needed :
-    let s1 := (runTx St.init [.dedupe 0 0 0, .save 0 0 (some 0)]).getD St.init
-    let t2 := (micro (shareWithoutAcquire (s1, []) 0 0) (.save 1 0 (some 0))).getD (s1, [])
-    let s3 := (runTx t2.1 [.rm 0 none]).getD t2.1
+    let q := SqlFacts.designed
+    let s1 := (runTx q St.init [.dedupe 0 0 0, .save 0 0 (some 0)]).getD St.init
+    let t2 := (micro q (shareWithoutAcquire (s1, []) 0 0) (.save 1 0 (some 0))).getD (s1, [])
+    let s3 := (runTx q t2.1 [.rm 0 none]).getD t2.1
     (s3.rows.map (·.owner) = [1]) ∧ (s3.rows.all fun r => (s3.stores r.store r.pid).isNone) = true := by
   decide
 
 /-- The same history with the reference taken (the code as it is) keeps the part. -/
 theorem acquire_present_ok :
-    let s1 := (runTx St.init [.dedupe 0 0 0, .save 0 0 (some 0)]).getD St.init
-    let s2 := (runTx s1 [.acquire 0 0, .save 1 0 (some 0)]).getD s1
-    let s3 := (runTx s2 [.rm 0 none]).getD s2
+    let q := SqlFacts.designed
+    let s1 := (runTx q St.init [.dedupe 0 0 0, .save 0 0 (some 0)]).getD St.init
+    let s2 := (runTx q s1 [.acquire 0 0, .save 1 0 (some 0)]).getD s1
+    let s3 := (runTx q s2 [.rm 0 none]).getD s2
     (s3.rows.map (·.owner) = [1]) ∧ (s3.rows.all fun r => (s3.stores r.store r.pid).isSome) = true := by
+  decide
+
+
+/-- The caller bug "hand `savePartRows` an existing part without a pre-acquired reference" (what
+AppendObject would do if it forgot that a suspended bucket's current ULID version must not be
+extended in place). -/
+def reuseWithoutReference (t : St × List Pend) (p : PartId) (st : Store) : St × List Pend :=
+  (t.1, t.2 ++ [⟨p, false, st⟩])
+
+/-- **loud_register.** With a plain INSERT the bug above cannot commit: `savePartRows` of an
+already registered, not pre-acquired part fails the transaction — for every state. -/
+theorem loud_register (q : SqlFacts) (hq : q.register = .fail) (s : St) (e : Pend) (rest : List Pend)
+    (hp : e.pre = false) (hr : s.reg e.pid ≠ none) (owner : Owner) (seq : Nat) (ck : Option CKey) :
+    micro q (s, e :: rest) (.save owner seq ck) = none := by
+  simp only [micro]
+  split
+  · rfl
+  · cases hreg : s.reg e.pid with
+    | none => exact absurd hreg hr
+    | some cv => simp [hp, hq]
+
+/-- **register_conflict_must_fail** (negation witness for `ON CONFLICT … DO NOTHING`): put k0
+(version V1, part 0); an append writes a second owner re-using part 0 without a reference.  With the
+plain INSERT the transaction fails; with a silently ignored conflict it commits with ref_count 1
+for 2 rows, and deleting V1 deletes the part the other owner still references. -/
+theorem register_conflict_must_fail :
+    let s1 := (runTx SqlFacts.designed St.init [.dedupe 0 0 0, .save 0 0 (some 0)]).getD St.init
+    let bug (q : SqlFacts) := micro q (reuseWithoutReference (s1, []) 0 0) (.save 1 0 (some 0))
+    let ign : SqlFacts := { SqlFacts.designed with register := .ignore }
+    let t2 := (bug ign).getD (s1, [])
+    let s3 := (runTx ign t2.1 [.rm 0 none]).getD t2.1
+    (bug SqlFacts.designed).isNone = true ∧
+    t2.1.reg 0 = some (1, 1) ∧ refs t2.1.rows 0 = 2 ∧
+    (s3.rows.map (·.owner) = [1]) ∧ (s3.rows.all fun r => (s3.stores r.store r.pid).isNone) = true := by
+  decide
+
+/-- A damaged (over-counted) registry as left by a leak: part 0 has one row and ref_count 2. -/
+def overCounted : St :=
+  let s1 := (runTx SqlFacts.designed St.init [.dedupe 0 0 0, .save 0 0 (some 0)]).getD St.init
+  { s1 with reg := upd1 s1.reg 0 (some (2, 2)) }
+
+/-- **version_guard_needed** (negation witness for `version >= observed`): the collector observes
+(part 0: 1 row, ref 2, version 2); a copy commits (2 rows, ref 3, version 3); the repair is applied.
+With `version = observed` it is rejected and nothing is lost; with `>=` the stale count 1 is
+written for 2 rows, deleting the copy brings it to 0 and the source's part is deleted. -/
+theorem version_guard_needed :
+    let go (q : SqlFacts) : St :=
+      run ⟨1, [0], fun _ => true, q⟩ overCounted
+        [.gcObserve, .tx [.acquire 0 0, .save 1 0 (some 0)], .gcReconcile, .tx [.rm 1 none]]
+    let bad := go { SqlFacts.designed with updateGuard := .ge }
+    let good := go SqlFacts.designed
+    (bad.rows.map (·.owner) = [0]) ∧ (bad.rows.all fun r => (bad.stores r.store r.pid).isNone) = true ∧
+    (good.rows.map (·.owner) = [0]) ∧ (good.rows.all fun r => (good.stores r.store r.pid).isSome) = true := by
   decide
 
 -- ---------------------------------------------------------------- the grace window
@@ -149,7 +226,7 @@ theorem grace_window_needed :
 copy shares it again, one owner is deleted, the collector condemns arbitrary ids in between — the
 remaining rows all point at a present part with the right count. -/
 example :
-    let cfg : Cfg := ⟨1, [0], fun _ => true⟩
+    let cfg : Cfg := ⟨1, [0], fun _ => true, SqlFacts.designed⟩
     let s := run cfg St.init
       [.tx [.dedupe 0 7 0, .save 0 0 (some 7)], .tx [.dedupe 0 7 1, .save 1 0 (some 7)], .gcObserve,
        .tx [.acquire 0 0, .save 2 0 (some 7)], .gcCondemn 0 0, .gcCondemn 0 1, .gcReconcile,
